@@ -8,80 +8,86 @@ def specStepCore (m m1 : Abs) (r : Option Err) (f : Fault) (res : Option Err) : 
   if res = some .io then (if f = .none then none else some m)
   else if res = r then (if f = .commit ∧ r = none then none else some m1) else none
 
-theorem specStep_eq (m : Abs) (op : Op) (res : Option Err) :
-    specStep m op res = specStepCore m (specApply m op).1 (specApply m op).2 op.fault res := by
+theorem specStep_eq (c : Cfg) (m : Abs) (op : Op) (res : Option Err) :
+    specStep c m op res = specStepCore m (specApply c m op).1 (specApply c m op).2 op.fault res := by
   unfold specStep specStepCore
   rfl
 
-/-- The exists/replace rules of `put` on the abstract map. -/
-def specPut (m : Abs) (o : Obj) (ar rr : Bool) : Abs × Option Err :=
+/-- The exists/replace rules of `put` on the abstract map, then the uniqueness of the unique indexes. -/
+def specPut (c : Cfg) (m : Abs) (o : Obj) (ar rr : Bool) : Abs × Option Err :=
   match absGet m o.id with
-  | none => if rr then (m, some .missing) else (absSet m o, none)
-  | some _ => if ar then (absSet m o, none) else (m, some .exists_)
+  | none => if rr then (m, some .missing) else absStore c m o
+  | some _ => if ar then absStore c m o else (m, some .exists_)
 
-theorem update_put_refines {c : Cfg} {P : Obj → Prop} {kv : KV} {m : Abs} (hk : KeysOK c P) (hi : Inv c P kv m)
-    (o : Obj) (hP : P o) (ar rr : Bool) (f : Fault) (hu : UniqueOK c (specPut m o ar rr).1) :
-    ∃ m', specStepCore m (specPut m o ar rr).1 (specPut m o ar rr).2 f
+/-- A `putTx` that got past the exists/replace rules: conflict ⇒ rejected with `conflict`, nothing changes; no
+conflict ⇒ committed (the invariant holds for `absSet m o`, uniqueness included) or struck by the injected fault. -/
+theorem update_store_refines {c : Cfg} {P : Obj → Prop} {kv : KV} {m : Abs} (hk : KeysOK c P) (hi : Inv c P kv m)
+    (o : Obj) (hP : P o) (ar rr : Bool) (f : Fault)
+    (hres : if absConflict c m o then putTx c (beginTx kv f) o ar rr = .error .conflict
+            else (∃ t', putTx c (beginTx kv f) o ar rr = .ok t') ∨
+                 (putTx c (beginTx kv f) o ar rr = .error .io ∧ (beginTx kv f).failAt.isSome = true)) :
+    ∃ m', specStepCore m (absStore c m o).1 (absStore c m o).2 f
             (update kv f (fun t => putTx c t o ar rr)).2 = some m' ∧
           Inv c P (update kv f (fun t => putTx c t o ar rr)).1 m' := by
-  have hres := putTx_result hk hi o ar rr (beginTx kv f) rfl
+  unfold absStore
   rcases update_cases kv f (fun t => putTx c t o ar rr) with ⟨t, hg, hc, hup⟩ | ⟨t, hg, hc, hup⟩ | ⟨e, hg, hup⟩
   · -- committed
     rw [hup]
     have hcont := putTx_content hk hi o hP ar rr (beginTx kv f) t rfl hg
-    unfold specPut at hu ⊢
-    cases ha : absGet m o.id with
-    | none =>
-      rw [ha] at hres hu
-      simp only at hres hu ⊢
-      cases rr with
-      | true => simp only [↓reduceIte] at hres; rw [hres] at hg; cases hg
-      | false =>
-        simp only [Bool.false_eq_true, ↓reduceIte] at hu ⊢
-        refine ⟨absSet m o, by simp [specStepCore, hc], inv_put hk hi o hP hu hcont⟩
-    | some x =>
-      rw [ha] at hres hu
-      simp only at hres hu ⊢
-      cases ar with
-      | false => simp only [Bool.false_eq_true, ↓reduceIte] at hres; rw [hres] at hg; cases hg
-      | true =>
-        simp only [↓reduceIte] at hu ⊢
-        refine ⟨absSet m o, by simp [specStepCore, hc], inv_put hk hi o hP hu hcont⟩
+    cases hcf : absConflict c m o with
+    | true => rw [hcf] at hres; simp only [↓reduceIte] at hres; rw [hres] at hg; cases hg
+    | false =>
+      simp only [Bool.false_eq_true, ↓reduceIte]
+      exact ⟨absSet m o, by simp [specStepCore, hc], inv_put hk hi o hP (uniqueOK_absSet hi.uniq hcf) hcont⟩
   · -- commit failed
     rw [hup]
     exact ⟨m, by simp [specStepCore, hc], hi⟩
   · rw [hup]
     refine ⟨m, ?_, hi⟩
-    unfold specPut
-    cases ha : absGet m o.id with
-    | none =>
-      rw [ha] at hres
-      simp only at hres ⊢
-      cases rr with
-      | true =>
-        simp only [↓reduceIte] at hres ⊢
-        rw [hres] at hg; cases hg
-        simp [specStepCore]
-      | false =>
-        simp only [Bool.false_eq_true, ↓reduceIte] at hres ⊢
-        rcases hres with ⟨t', ht'⟩ | ⟨he, hf⟩
-        · rw [ht'] at hg; cases hg
-        · rw [he] at hg; cases hg
-          simp [specStepCore, (beginTx_failAt hf).1]
-    | some x =>
-      rw [ha] at hres
-      simp only at hres ⊢
-      cases ar with
-      | false =>
-        simp only [Bool.false_eq_true, ↓reduceIte] at hres ⊢
-        rw [hres] at hg; cases hg
-        simp [specStepCore]
-      | true =>
-        simp only [↓reduceIte] at hres ⊢
-        rcases hres with ⟨t', ht'⟩ | ⟨he, hf⟩
-        · rw [ht'] at hg; cases hg
-        · rw [he] at hg; cases hg
-          simp [specStepCore, (beginTx_failAt hf).1]
+    cases hcf : absConflict c m o with
+    | true =>
+      rw [hcf] at hres; simp only [↓reduceIte] at hres ⊢
+      rw [hres] at hg; cases hg
+      simp [specStepCore]
+    | false =>
+      rw [hcf] at hres; simp only [Bool.false_eq_true, ↓reduceIte] at hres ⊢
+      rcases hres with ⟨t', ht'⟩ | ⟨he, hf⟩
+      · rw [ht'] at hg; cases hg
+      · rw [he] at hg; cases hg
+        simp [specStepCore, (beginTx_failAt hf).1]
+
+theorem update_put_refines {c : Cfg} {P : Obj → Prop} {kv : KV} {m : Abs} (hk : KeysOK c P) (hi : Inv c P kv m)
+    (o : Obj) (hP : P o) (ar rr : Bool) (f : Fault) :
+    ∃ m', specStepCore m (specPut c m o ar rr).1 (specPut c m o ar rr).2 f
+            (update kv f (fun t => putTx c t o ar rr)).2 = some m' ∧
+          Inv c P (update kv f (fun t => putTx c t o ar rr)).1 m' := by
+  have hres := putTx_result hk hi o hP ar rr (beginTx kv f) rfl
+  unfold specPut
+  cases ha : absGet m o.id with
+  | none =>
+    rw [ha] at hres
+    simp only at hres ⊢
+    cases rr with
+    | true =>
+      simp only [↓reduceIte] at hres ⊢
+      refine ⟨m, ?_, ?_⟩ <;> simp only [update, hres]
+      · simp [specStepCore]
+      · exact hi
+    | false =>
+      simp only [Bool.false_eq_true, ↓reduceIte] at hres ⊢
+      exact update_store_refines hk hi o hP ar false f hres
+  | some x =>
+    rw [ha] at hres
+    simp only at hres ⊢
+    cases ar with
+    | false =>
+      simp only [Bool.false_eq_true, ↓reduceIte] at hres ⊢
+      refine ⟨m, ?_, ?_⟩ <;> simp only [update, hres]
+      · simp [specStepCore]
+      · exact hi
+    | true =>
+      simp only [↓reduceIte] at hres ⊢
+      exact update_store_refines hk hi o hP true rr f hres
 
 theorem update_delete_refines {c : Cfg} {P : Obj → Prop} {kv : KV} {m : Abs} (hk : KeysOK c P) (hi : Inv c P kv m)
     (id : Str) (f : Fault) :
@@ -101,29 +107,31 @@ theorem update_delete_refines {c : Cfg} {P : Obj → Prop} {kv : KV} {m : Abs} (
     · rw [he] at hg; cases hg
       simp [specStepCore, (beginTx_failAt hf).1]
 
-theorem specApply_create (m : Abs) (o : Obj) (f : Fault) : specApply m (.create o f) = specPut m o false false := by
+theorem specApply_create (c : Cfg) (m : Abs) (o : Obj) (f : Fault) :
+    specApply c m (.create o f) = specPut c m o false false := by
   unfold specApply specPut; cases h : absGet m o.id <;> simp [h]
-theorem specApply_put (m : Abs) (o : Obj) (f : Fault) : specApply m (.put o f) = specPut m o true false := by
-  unfold specApply specPut; cases h : absGet m o.id <;> simp [h]
-theorem specApply_replace (m : Abs) (o : Obj) (f : Fault) : specApply m (.replace o f) = specPut m o true true := by
+theorem specApply_put (c : Cfg) (m : Abs) (o : Obj) (f : Fault) :
+    specApply c m (.put o f) = specPut c m o true false := by
+  unfold specApply specPut; cases h : absGet m o.id <;> simp
+theorem specApply_replace (c : Cfg) (m : Abs) (o : Obj) (f : Fault) :
+    specApply c m (.replace o f) = specPut c m o true true := by
   unfold specApply specPut; cases h : absGet m o.id <;> simp [h]
 
 /-- One API call (other than `Rebuild`) refines one step of the abstract map and re-establishes the invariant. -/
 theorem step_refines {c : Cfg} {P : Obj → Prop} {kv : KV} {m : Abs} (hk : KeysOK c P) (hi : Inv c P kv m)
-    (op : Op) (hnr : op.isRebuild = false) (hP : ∀ o, op.obj? = some o → P o)
-    (hu : UniqueOK c (specApply m op).1) :
-    ∃ m', specStep m op (step c kv op).2 = some m' ∧ Inv c P (step c kv op).1 m' := by
+    (op : Op) (hnr : op.isRebuild = false) (hP : ∀ o, op.obj? = some o → P o) :
+    ∃ m', specStep c m op (step c kv op).2 = some m' ∧ Inv c P (step c kv op).1 m' := by
   rw [specStep_eq]
   cases op with
   | create o f =>
-    rw [specApply_create] at hu ⊢
-    exact update_put_refines hk hi o (hP o rfl) false false f hu
+    rw [specApply_create]
+    exact update_put_refines hk hi o (hP o rfl) false false f
   | put o f =>
-    rw [specApply_put] at hu ⊢
-    exact update_put_refines hk hi o (hP o rfl) true false f hu
+    rw [specApply_put]
+    exact update_put_refines hk hi o (hP o rfl) true false f
   | replace o f =>
-    rw [specApply_replace] at hu ⊢
-    exact update_put_refines hk hi o (hP o rfl) true true f hu
+    rw [specApply_replace]
+    exact update_put_refines hk hi o (hP o rfl) true true f
   | delete id f => exact update_delete_refines hk hi id f
   | rebuild f => simp [Op.isRebuild] at hnr
   | reopen => exact ⟨m, by simp [specStepCore, specApply, Op.fault, step], hi⟩
@@ -136,23 +144,13 @@ admissible for the abstract map). -/
 def absRun (c : Cfg) : List Op → KV → Abs → Option Abs
   | [], _, m => some m
   | op :: rest, kv, m =>
-    match specStep m op (step c kv op).2 with
+    match specStep c m op (step c kv op).2 with
     | none => none
     | some m' => absRun c rest (step c kv op).1 m'
 
 def runFrom (c : Cfg) (kv : KV) (ops : List Op) : KV := ops.foldl (fun kv op => (step c kv op).1) kv
 
-/-- Unique indexes only on the id (every `IndexedStore` of kapacitor is configured like this). -/
-def Cfg.uniqueOnIdOnly (c : Cfg) : Bool := c.indexes.all (fun i => !i.unique || i.sel == .id)
-
-theorem uniqueOK_of_idOnly {c : Cfg} (h : c.uniqueOnIdOnly = true) (m : Abs) : UniqueOK c m := by
-  intro i hi hun a _ b _ hsel
-  have := (List.all_eq_true.mp h) i hi
-  simp [hun] at this
-  rw [this] at hsel
-  exact hsel
-
-theorem history_refines {c : Cfg} {P : Obj → Prop} (hk : KeysOK c P) (hid : c.uniqueOnIdOnly = true) :
+theorem history_refines {c : Cfg} {P : Obj → Prop} (hk : KeysOK c P) :
     ∀ (ops : List Op) (kv : KV) (m : Abs), Inv c P kv m →
       (∀ op ∈ ops, op.isRebuild = false ∧ ∀ o, op.obj? = some o → P o) →
       ∃ m', absRun c ops kv m = some m' ∧ Inv c P (runFrom c kv ops) m' := by
@@ -162,7 +160,7 @@ theorem history_refines {c : Cfg} {P : Obj → Prop} (hk : KeysOK c P) (hid : c.
   | cons op rest ih =>
     intro kv m hi hops
     obtain ⟨hnr, hP⟩ := hops op (List.mem_cons_self)
-    obtain ⟨m1, hs, hi1⟩ := step_refines hk hi op hnr hP (uniqueOK_of_idOnly hid _)
+    obtain ⟨m1, hs, hi1⟩ := step_refines hk hi op hnr hP
     obtain ⟨m', hr, hi'⟩ := ih (step c kv op).1 m1 hi1 (fun o ho => hops o (List.mem_cons_of_mem _ ho))
     refine ⟨m', ?_, ?_⟩
     · simp only [absRun, hs]; exact hr
